@@ -28,7 +28,7 @@ class DataDir:
         self.ends[fileno] = max(end, at + len(data))
         return at
 
-    def place(self, fileno, block_bytes, at=None, size=None, magic=None):
+    def place(self, fileno, block_bytes, at=None, size=None, magic=None, fill=False):
         """magic + size prefix + block; returns the data offset recorded in the index"""
         size = len(block_bytes) if size is None else size
         if magic is None:
@@ -38,7 +38,9 @@ class DataDir:
             magic = self.magic
             if os.environ.get('RBP_VERIF_NO_AMBIENT') is None and self._placed % 5 == 3:
                 magic = (0x40cf030a, 0xdab5bffa, 0x00000000, 0xffffffff)[(self._placed // 5) % 4]
-        start = self.raw(fileno, struct.pack('<II', magic, size) + block_bytes, at)
+        # fill: the record really is as long as its prefix says - zero padding after the block (a prefix may cover more than the block)
+        tail = b'\0' * (size - len(block_bytes)) if fill and size > len(block_bytes) else b''
+        start = self.raw(fileno, struct.pack('<II', magic, size) + block_bytes + tail, at)
         return start + 8
 
     # -- index -------------------------------------------------------------------------
@@ -54,7 +56,12 @@ class DataDir:
                     ver = (259900, 70015, 2 ** 32 - 1, 2 ** 63)[(self._recs // 4) % 4]
                 if self._recs % 6 == 3:
                     status |= (256, 1 << 12, 1 << 31, 1 << 40)[(self._recs // 6) % 4]
-        self.kvs[b'b' + h] = btc.index_record(ver, height, status, ntx, fileno, off, undo, hdr)
+        value = btc.index_record(ver, height, status, ntx, fileno, off, undo, hdr)
+        if os.environ.get('RBP_VERIF_NO_AMBIENT') is None and getattr(self, '_recs', 0) % 7 == 5:
+            # indexes of some forks (and of old AuxPoW coins) serialise further data after the 80-byte header: a reader takes the
+            # header where it stands and ignores the rest
+            value += hashlib.sha256(h).digest() + b'\x01\x02\x03\x04\x05'
+        self.kvs[b'b' + h] = value
         if status & btc.HAVE_DATA:
             # what Bitcoin Core's per-file record ('f' + file number) says about this file: every block stored in it counts,
             # on the active chain or not
